@@ -92,6 +92,10 @@ def run_case(seed, big=False):
     count(f"boxes with negative mass-fraction undershoots={c.meta.get('undershoot_boxes', 0) > 0}")
     count(f"time spelled without a decimal point={'.' not in repr(float(c.time))}")
     count(f"time is a whole number={float(c.time) % 1 == 0}")
+    d = checkpoint_header_compare(model, chkdir)
+    if d:
+        out['disagreements'].append(dict(seed=seed, meta=c.meta, kind='model-vs-impl-chk-header', what=d,
+                                         correspondence='Writers.ChkHeader.p_chk vs CheckpointReader.__init__'))
     # a reference plotfile that only provides the species names
     refdir = None
     for k in range(2):
@@ -162,7 +166,96 @@ def run_case(seed, big=False):
         if d:
             out['disagreements'].append(dict(desc, kind='model-vs-impl', what=d,
                                              correspondence='Writers.Chk2plt.convert_level vs chk2plt.convert'))
+        d = written_header_compare(model, c, chkdir, gradp, reactions, iimg)
+        if d:
+            out['disagreements'].append(dict(desc, kind='model-vs-impl-header', what=d,
+                                             correspondence='Writers.ChkHeader.write_global_header vs Chk2plt.write_global_header'))
     return out
+
+
+def _float_or_none(t):
+    try:
+        return float(t)
+    except ValueError:
+        return None
+
+
+def float_tables(tokens):
+    """the floating-point parameters of the header model, as tables computed by Python: the tokens whose value is whole,
+    (token, int(value)) and (token, printed value)"""
+    wholes, toints, frepr = [], [], []
+    for t in sorted({t for line in tokens for t in line}):
+        v = _float_or_none(t.decode('latin1'))
+        if v is None:
+            continue
+        frepr.append([t, repr(v).encode()])
+        if v == v and abs(v) != float('inf') and v % 1 == 0:
+            wholes.append(t)
+            toints.append([t, int(v)])
+    return wholes, toints, frepr
+
+
+def checkpoint_header_compare(model, chkdir):
+    """Writers.ChkHeader.p_chk (as repaired) against CheckpointReader on the checkpoint's Header"""
+    from amr_kitchen.chk2plt.checkpoint_reader import CheckpointReader
+    toks = oracle.read_tokens(os.path.join(chkdir, 'Header'))
+    wholes, toints, _ = float_tables(toks)
+    st, m = model.call('chk_header', [toks, wholes, toints, 0])
+    impl = core.outcome(lambda: CheckpointReader(chkdir))
+    if (st == 'ok') != (impl[0] == 'ok'):
+        return f"the model {'reads' if st == 'ok' else 'refuses'} the checkpoint Header, CheckpointReader {'reads it' if impl[0] == 'ok' else 'raises ' + str(impl[1])}"
+    if st != 'ok':
+        return None
+    ver, maxlv, step, il, tm, dt1, dt2, lo, hi, boxes, tail = m
+    cr = impl[1]
+    mine = dict(max_level=maxlv, step=step, time=float(tm), lo=[float(x) for x in lo], hi=[float(x) for x in hi],
+                boxes=[[[list(a), list(b)] for a, b in lev] for lev in boxes], pressure=float(tail[0]),
+                typvals=[float(x) for x in tail[2]])
+    theirs = dict(max_level=int(cr.max_level), step=int(cr.step_number), time=float(cr.time), lo=[float(x) for x in cr.geo_lo],
+                  hi=[float(x) for x in cr.geo_hi],
+                  boxes=[[[[int(x) for x in b[0]], [int(x) for x in b[1]]] for b in lev['indices']] for lev in cr.boxes],
+                  pressure=float(cr.pressure), typvals=[float(x) for x in cr.typvals])
+    for k in mine:
+        if mine[k] != theirs[k]:
+            return f"checkpoint Header, {k}: model {str(mine[k])[:120]} vs CheckpointReader {str(theirs[k])[:120]}"
+    return None
+
+
+def written_header_compare(model, c, chkdir, gradp, reactions, iimg):
+    """Writers.ChkHeader.write_global_header (on the parsed checkpoint header, with the printed floats of an independent
+    calculation: cell size = extent / cells, box bounds = low + index x cell size) against the Header chk2plt wrote:
+    every token equal, floating-point tokens equal up to rounding"""
+    toks = oracle.read_tokens(os.path.join(chkdir, 'Header'))
+    wholes, toints, frepr = float_tables(toks)
+    ns = len(c.species)
+    k = 3 + (1 if c.int_line else 0)
+    lo = np.array([float(t) for t in toks[k + 3]])
+    hi = np.array([float(t) for t in toks[k + 4]])
+    g0 = np.max(np.array([b[1] for b in c.levels[0]['boxes']]), axis=0) + 1
+    dxrows, bnds = [], []
+    for lv in range(c.nlevels):
+        dx = (hi - lo) / (g0 * 2 ** lv)
+        dxrows.append([repr(float(x)).encode() for x in dx])
+        bnds.append([[[repr(float(lo[d] + b0[d] * dx[d])).encode(), repr(float(lo[d] + (b1[d] + 1) * dx[d])).encode()] for d in range(3)]
+                     for b0, b1 in c.levels[lv]['boxes']])
+    st, m = model.call('chk_written', [toks, wholes, toints, [s_.encode() for s_ in c.species], 1 if gradp else 0, 1 if reactions else 0,
+                                       [4 + ns + 3, 3, ns], frepr, dxrows, bnds])
+    if st != 'ok':
+        return 'the model of the written Header refuses the checkpoint header'
+    got = iimg['header']
+    if len(m) != len(got):
+        return f"written Header: {len(got)} lines, the model writes {len(m)}"
+    scale = float(np.max(np.abs(np.concatenate([lo, hi])))) or 1.0
+    for ln, (a, b) in enumerate(zip(m, got)):
+        if len(a) != len(b):
+            return f"written Header line {ln}: {b} vs model {a}"
+        for x, y in zip(a, b):
+            if x == y:
+                continue
+            fx, fy = _float_or_none(x.decode('latin1')), _float_or_none(y.decode('latin1'))
+            if fx is None or fy is None or b'.' not in y and b'e' not in y or abs(fx - fy) > 1e-12 * scale:
+                return f"written Header line {ln}: {b} vs model {a}"
+    return None
 
 
 def model_compare(model, c, gradp, reactions, floor, iimg):
@@ -235,16 +328,28 @@ def run(tier, seed):
         rep.merge(r)
     rep.obligation('correspondence: Writers.Chk2plt.convert_level (binary files byte for byte, (file, offset) table) = output of chk2plt',
                    not any(v[0].get('kind') == 'model-vs-impl' for v in rep.violations))
+    rep.obligation('correspondence: Writers.ChkHeader.p_chk = CheckpointReader.__init__ on the checkpoint Header (levels, step, time, geometry, '
+                   'boxes, pressure, typical values; with and without the integer line; whole-number times included)',
+                   not any(v[0].get('kind') == 'model-vs-impl-chk-header' for v in rep.violations))
+    rep.obligation('correspondence: Writers.ChkHeader.write_global_header = the Header chk2plt writes (every token; floating-point tokens up to rounding)',
+                   not any(v[0].get('kind') == 'model-vs-impl-header' for v in rep.violations))
     return rep.finish(
         level_rule=("cases = synthetic checkpoint (1-3 levels, mixed boxes, 1-4 species, 1-3 ghost cells, anisotropic / shifted dyadic and "
-                    "decimal domains, optional integer line in the header, independent random file layouts for each of the five data "
+                    "decimal domains, optional integer line in the header, times with and without a decimal point and whole-number "
+                    "times, boxes with negative mass-fraction undershoots, independent random file layouts for each of the five data "
                     "subsets) x 2 (gradp, species_reactions, floor_massfracs flags; species from a list or a reference plotfile); output "
                     "parsed by the independent reader: fields, levels, boxes, time, geometry, interior values bit for bit (rescaled mass "
                     "fractions computed by the same numpy expression), min/max, taste with box coordinates; checkpoint tree hashed "
                     "before and after"),
         trusted_base=core.COMMON_TRUSTED + [
             "floating-point division of the flooring step is numpy's; the model takes the rescaled species components as a table",
-            "checkpoint times are non-integral (the header parse decides by 'value % 1 == 0' whether an integer line precedes the time)"],
+            "header model (Writers/ChkHeader.v): floating point enters as parameters - whole (float(t) % 1 == 0, used for the optional "
+            "coordinate-system line), to_int, frepr (Python's printing of a parsed float), the printed cell sizes and box bounds; the "
+            "correspondence instantiates them with tables computed by Python / numpy (cell size = extent / cells, bounds = low + index x "
+            "cell size) and compares floating-point tokens of the written Header up to 1e-12 of the domain scale",
+            "lines are token lists: a Header line starting with blanks is not distinguished from one that does not",
+            "when the coordinate-system line is absent the first typical value must not be a whole number (the reader tells the two "
+            "layouts apart by value % 1 == 0 there: hypothesis wf_tail of C17_checkpoint_header)"],
         assumptions=["float(repr(x)) == x"],
         checker_cmd=pg['checker_cmd'])
 
